@@ -70,6 +70,31 @@ SEEDS = {
                 caught_by="per-chain kwargs with differing keys compared bitwise with stand-alone runs"),
 }
 
+# second round: a different mechanism was requested for every property
+SEEDS.update({
+    "C01_2": dict(change="_AbstractDistribution.corrector reflects lower OR upper (elif): coordinates leaving through opposite walls in one drift are not all mirrored",
+                  needs="two-sided bounds, dimension >= 2, two coordinates exiting through opposite sides in one position update",
+                  caught_by="call-trace correspondence; reversibility oracle with corner starts (added for this seed; the hypothesis check now follows the specified trajectory)"),
+    "C02_2": dict(change="HMC acceptance computed as exp(dU) * exp(dK) instead of exp(dH): inf * 0 = NaN / inf for |dU| > 709",
+                  needs="a transition converting several hundred units of misfit into kinetic energy",
+                  caught_by="transition-count / exp-call trace of the co-executed hmc_step (two exp evaluations per transition instead of one)"),
+    "C03_2": dict(change="BFGS update in place + reset() handing back the backup arrays without copying",
+                  needs="reject, trajectory update with s.y > 0, reject again without an accept in between",
+                  caught_by="BFGS history machine co-execution on generated Accept/Update/Reject histories"),
+    "C04_2": dict(change="Normal.normalize scalar-covariance branch uses log|c| instead of d*log|c| (mixture weights silently rescaled)",
+                  needs="Mixture of Normals with different scalar covariances in more than one dimension",
+                  caught_by="density of the starting draws vs exp(-misfit) and scalar-variance mixtures in the moment tests (added after this seed was first missed)"),
+    "C05_2": dict(change="SourceLocation gradient: origin-time component summed over all events (axis lost)",
+                  needs="at least two events",
+                  caught_by="finite differences / interval enclosure of the source-location gradient"),
+    "C06_2": dict(change="cached `bounded` flag set only by update_bounds: boxes handed to Composite / BayesRule constructors are ignored by misfit",
+                  needs="bounds passed to the CompositeDistribution or BayesRule constructor",
+                  caught_by="boxes handed to wrapper constructors (added after this seed was first missed)"),
+    "C07_2": dict(change="accepted_proposals / amount_of_writes reset moved from _init_sampler to __init__",
+                  needs="the same sampler object running sample() twice",
+                  caught_by="runs on a sampler object that already made a run, acceptance counted from the transitions (added after this seed was first missed)"),
+})
+
 
 def main():
     ids = sys.argv[1:] or sorted(SEEDS)
@@ -77,7 +102,7 @@ def main():
         d = os.path.join("/verif/seeded", pid)
         if not os.path.isdir(d):
             continue
-        meta = {"property": pid, "files": sorted(f for f in os.listdir(d) if f != "meta.json")}
+        meta = {"property": pid.split("_")[0], "files": sorted(f for f in os.listdir(d) if f != "meta.json")}
         meta.update(SEEDS.get(pid, {}))
         vt = os.path.join(d, "validation.txt")
         if os.path.exists(vt):
@@ -96,8 +121,8 @@ def main():
         if os.path.exists(lg):
             t = open(lg).read()
             vio = re.findall(r"^VIOLATION property=\S+ replay=\S+ key=(\S+)", t, re.M)
-            summ = re.search(rf"^{pid}: tier=.*$", t, re.M)
-            meta["check_on_seeded_tree"] = {"cmd": f"tools/seedtest.sh {pid} seeded/{pid}/patch.diff  (check.py {pid} --tier quick with HMCLAB_REPO=<scratch copy + patch>)",
+            summ = re.search(rf"^{pid.split('_')[0]}: tier=.*$", t, re.M)
+            meta["check_on_seeded_tree"] = {"cmd": f"tools/seedtest.sh {pid.split('_')[0]} seeded/{pid}/patch.diff  (check.py {pid} --tier quick with HMCLAB_REPO=<scratch copy + patch>)",
                                             "exit": 1 if vio else 0, "violation_keys": sorted(set(vio)), "summary": summ.group(0) if summ else None}
             meta["detected"] = bool(vio)
         json.dump(meta, open(os.path.join(d, "meta.json"), "w"), indent=1)
